@@ -103,7 +103,25 @@ func c19Ref(c c19Case) (accept bool, typ, uid string) {
 }
 
 func c19Eval(c c19Case) (held bool, sig, expected, observed string) {
-	cal := c19Build(c)
+	return c19EvalOn(c19Build(c), c)
+}
+
+// c19Edit turns the calendar value cal (built for another case) into the calendar of case c IN PLACE: the
+// *ical.Calendar and, where the number of components allows, the component values keep their identity.
+func c19Edit(cal *ical.Calendar, c c19Case) {
+	nb := c19Build(c)
+	cal.Props = nb.Props
+	for i, ch := range nb.Children {
+		if i < len(cal.Children) {
+			*cal.Children[i] = *ch
+		} else {
+			cal.Children = append(cal.Children, ch)
+		}
+	}
+	cal.Children = cal.Children[:len(nb.Children)]
+}
+
+func c19EvalOn(cal *ical.Calendar, c c19Case) (held bool, sig, expected, observed string) {
 	var gotT, gotU string
 	var err error
 	panicked := ""
@@ -234,15 +252,38 @@ func init() {
 					s.Violate(engine.Violation{Sig: strings.Replace(sig, "C19/", "C19/history/", 1), Clause: "history", Index: hbase + int64(ai)*int64(len(small)) + int64(bi), Kind: "C19-history",
 						Case: map[string]interface{}{"First": small[ai], "Second": b}, Expected: exp, Observed: obs})
 				}
+				// the same pair on ONE calendar value: validated, edited in place into the second calendar,
+				// validated again (a backend that validates, amends the object and validates once more)
+				cal := c19Build(small[ai])
+				c19EvalOn(cal, small[ai])
+				c19Edit(cal, b)
+				held, sig, exp, obs = c19EvalOn(cal, b)
+				s.Transition()
+				s.Transition()
+				s.Clause("history independence: verdict on a calendar value edited in place after a validation")
+				if !held {
+					s.Violate(engine.Violation{Sig: strings.Replace(sig, "C19/", "C19/history-in-place/", 1), Clause: "history-in-place", Index: hbase + int64(ai)*int64(len(small)) + int64(bi), Kind: "C19-history",
+						Case: map[string]interface{}{"First": small[ai], "Second": b, "InPlace": true}, Expected: exp, Observed: obs})
+				}
 			}
 			s.Nontrivial(fmt.Sprintf("H/%d", ai))
 		})
 		r.Extra["max_components"] = maxLen
 	})
 	registerReplay("C19-history", func(raw json.RawMessage) (bool, string) {
-		var c struct{ First, Second c19Case }
+		var c struct {
+			First, Second c19Case
+			InPlace       bool
+		}
 		if err := json.Unmarshal(raw, &c); err != nil {
 			return false, err.Error()
+		}
+		if c.InPlace {
+			cal := c19Build(c.First)
+			c19EvalOn(cal, c.First)
+			c19Edit(cal, c.Second)
+			held, _, exp, obs := c19EvalOn(cal, c.Second)
+			return held, "expected " + exp + " observed " + obs
 		}
 		c19Eval(c.First)
 		held, _, exp, obs := c19Eval(c.Second)
